@@ -636,6 +636,14 @@ class TextGen:
                         lines[i] = l.replace(parts[1], "$Zd", 1) if rng.random() < 0.5 else l.replace(parts[1], "${zd}", 1)
                         lines.insert(0, "%%define ZD %s" % parts[1])
                         break
+            if rng.random() < 0.12:
+                # references to environment variables that are set -- to nothing, to blanks, to a word
+                for i, l in enumerate(lines):
+                    parts = l.strip().split(None, 1)
+                    if len(parts) == 2 and not parts[0].startswith(("<", "#", "%")) and rng.random() < 0.5:
+                        ref = rng.choice(["$(ZCV_EMPTY)", "$(ZCV_EMPTY)", "$(ZCV_BLANK)", "$(Zcv_Mixed)"])
+                        lines[i] = l + ref if rng.random() < 0.7 else l.replace(parts[1], ref + parts[1], 1)
+                        break
         if self.p(0.04):
             lines.insert(rng.randrange(len(lines) + 1), rng.choice(["<", "</x", "%foo x", "(v", "<a b c>", "k $nope"]))
         return "".join(l + "\n" for l in lines)
